@@ -210,7 +210,10 @@ func init() {
 			ruleTLIdx(c)
 			c.Rule("ER-CHECK", erClauses["ER-CHECK"], 8)
 			if fn := c.P.Func(c.P.Time, "parseTime"); fn != nil {
-				erCheck(c, fn, erOpts{}, "ER-CHECK", "", "", erClauses)
+				// the parser and the helpers it is split into
+				for _, f := range ptScope(c.P, fn) {
+					erCheck(c, f, erOpts{}, "ER-CHECK", "", "", erClauses)
+				}
 			}
 		})
 }
